@@ -118,25 +118,70 @@ def gen_scenario(rng, fault_bias=0.5, attr=True):
 # ----------------------------------------------------------------------------------------------------------------
 # worker processes
 
-def run_worker(ctx, mode, data, tag, timeout=3600):
+def wall_limit(ctx):
+    """wall-clock seconds one worker process may take (a chunk of <= 250 pairs normally needs well under a minute)"""
+    return ctx.n(240, 1500)
+
+
+def run_worker(ctx, mode, data, tag, timeout=None):
+    """-> parsed output; for mode 'pairs': (list of finished results, timed_out?)"""
+    timeout = timeout or wall_limit(ctx)
     inp = os.path.join(ctx.workdir, 'c15_%s_in.json' % tag)
     outp = os.path.join(ctx.workdir, 'c15_%s_out.json' % tag)
     with open(inp, 'w') as f:
         json.dump(data, f)
     env = dict(os.environ)
-    p = subprocess.run([sys.executable, '-m', WORKER, mode, inp, outp], capture_output=True, text=True, env=env,
-                       timeout=timeout, cwd=coq.VERIF)
-    if p.returncode != 0:
+    timed_out = False
+    try:
+        p = subprocess.run([sys.executable, '-m', WORKER, mode, inp, outp], capture_output=True, text=True, env=env,
+                           timeout=timeout, cwd=coq.VERIF)
+    except subprocess.TimeoutExpired:
+        if mode != 'pairs':
+            raise RuntimeError('c15 worker (%s) exceeded its wall-clock limit of %d s' % (mode, timeout))
+        timed_out = True
+        p = None
+    if p is not None and p.returncode != 0:
         raise RuntimeError('c15 worker failed (rc=%s): %s' % (p.returncode, (p.stderr or p.stdout)[-1500:]))
+    if mode == 'pairs':
+        done = []
+        try:
+            with open(outp + 'l') as f:
+                for line in f:
+                    if line.endswith('\n'):
+                        done.append(json.loads(line))
+        except FileNotFoundError:
+            pass
+        return done, timed_out
     with open(outp) as f:
         return json.load(f)
+
+
+def run_chunk(ctx, chunk, tag):
+    """pairs for one chunk; a scenario on which the worker exceeds the wall-clock limit is reported (not raised) and the
+    rest of the chunk is run by a fresh worker"""
+    res = []
+    attempt = 0
+    while len(res) < len(chunk):
+        rest = chunk[len(res):]
+        if attempt >= 3:
+            res += [{'error': 'not run: the worker already timed out %d times on this chunk' % attempt}] * len(rest)
+            break
+        done, timed_out = run_worker(ctx, 'pairs', rest, '%s_a%d' % (tag, attempt))
+        res += done[:len(rest)]
+        if timed_out and len(done) < len(rest):
+            res.append({'error': 'the worker exceeded its wall-clock limit of %d s while running this scenario (a wait that '
+                                 'advances neither real nor virtual time?)' % wall_limit(ctx), 'wall_timeout': True})
+        elif len(done) < len(rest):
+            res += [{'error': 'worker ended without a result for this scenario'}] * (len(rest) - len(done))
+        attempt += 1
+    return res
 
 
 def run_pairs(ctx, scenarios, tag):
     k = max(1, min(PROCS, len(scenarios) // 8 or 1))
     chunks = [scenarios[i::k] for i in range(k)]
     with ThreadPoolExecutor(max_workers=k) as ex:
-        outs = list(ex.map(lambda ic: run_worker(ctx, 'pairs', ic[1], '%s_%d' % (tag, ic[0])), enumerate(chunks)))
+        outs = list(ex.map(lambda ic: run_chunk(ctx, ic[1], '%s_%d' % (tag, ic[0])), enumerate(chunks)))
     res = [None] * len(scenarios)
     for i, out in enumerate(outs):
         for j, r in enumerate(out):
@@ -328,6 +373,8 @@ def handle_pairs(ctx, res, scenarios, results, tag, seen, max_shrink=2):
             res['tie_failures'].append({'note': 'scenario failed in the harness worker', 'run': label, 'error': pr['error'],
                                         'trace': pr.get('trace'), 'scenario': sc})
             continue
+        if pr['faulty_run'].get('stuck'):
+            dist['runs_with_a_stuck_pass'] = dist.get('runs_with_a_stuck_pass', 0) + 1
         nontrivial = stats(sc, pr, dist)
         h = hashlib.sha1(json.dumps(sc, sort_keys=True).encode()).hexdigest()
         if nontrivial and h not in seen:
@@ -344,7 +391,7 @@ def handle_pairs(ctx, res, scenarios, results, tag, seen, max_shrink=2):
             if shrunk < max_shrink:
                 shrunk += 1
                 try:
-                    out = run_worker(ctx, 'shrink', sc, '%s_shrink%d' % (tag, n), timeout=1200)
+                    out = run_worker(ctx, 'shrink', sc, '%s_shrink%d' % (tag, n))
                     if out['pair'].get('diff'):
                         small, spair = out['scenario'], out['pair']
                 except Exception as e:  # noqa: BLE001
@@ -362,10 +409,12 @@ def handle_pairs(ctx, res, scenarios, results, tag, seen, max_shrink=2):
                 continue
             res['violations'].append({
                 'key': {'oracle': 'paired-run', 'fault_sites': '+'.join(fault_sites(small)),
-                        'escaped_update': escaped(spair['faulty_run'])},
-                'what': 'healthy ports behave differently with the faulty ports present (fault sites: %s%s): first differing '
+                        'escaped_update': escaped(spair['faulty_run']), 'stuck': bool(spair['faulty_run'].get('stuck'))},
+                'what': 'healthy ports behave differently with the faulty ports present (fault sites: %s%s%s): first differing '
                         'observable "%s"' % ('+'.join(fault_sites(small)) or '-',
                                              '; an exception escaped main.update()' if escaped(spair['faulty_run']) else '',
+                                             '; a polling pass / API call never finished (every port frozen)'
+                                             if spair['faulty_run'].get('stuck') else '',
                                              spair['diff']['observable']),
                 'case': small, 'expected': 'identical healthy observables with and without the faulty ports',
                 'observed': spair['diff'],
